@@ -128,17 +128,18 @@ def read_model_parameters(
     start_end_years = [sim_start_date.year, sim_end_date.year]
 
     # check if crop growing season runs over calander year
-    # Planting and harvest dates are in days/months format so just add arbitrary year
-    single_year = pd.to_datetime("1990/" + crop.planting_date) < pd.to_datetime(
-        "1990/" + crop.harvest_date
+    # Planting and harvest dates are in days/months format so just add an arbitrary
+    # (leap, so that 29 February is a date) year
+    single_year = pd.to_datetime("2000/" + crop.planting_date) < pd.to_datetime(
+        "2000/" + crop.harvest_date
     )
 
     if single_year:
         # if normal year
 
         # Check if the simulation in the following year does not exceed planting date.
-        mock_simulation_end_date = pd.to_datetime("1990/" + f'{sim_end_date.month}' + "/" + f'{sim_end_date.day}')
-        mock_simulation_start_date = pd.to_datetime("1990/" + crop.planting_date)
+        mock_simulation_end_date = pd.to_datetime("2000/" + f'{sim_end_date.month}' + "/" + f'{sim_end_date.day}')
+        mock_simulation_start_date = pd.to_datetime("2000/" + crop.planting_date)
         last_simulation_year_does_not_start = mock_simulation_end_date <= mock_simulation_start_date
 
         if last_simulation_year_does_not_start:
